@@ -52,11 +52,11 @@ def parts(tier, seed=0):
     P = []
     R, O, M, RM = G.arg_kind("req"), G.arg_kind("opt", default="typed"), G.arg_kind("multi"), G.arg_kind("reqmulti")
     if tier == "smoke":  # development aid only (not a claimed bound): ~60 k lines
-        p = dict(dom_n=3, arg_dom_n=1, multi_len=2, arg_multi_len=2, with_null=True)
-        a = [(G.mk_spec(G.NAMES1, [k], [R, M]), p) for k in G.all_option_kinds()[::3]]
+        p = dict(dom_n=3, arg_dom_n=1, multi_len=2, arg_multi_len=1, with_null=True)
+        a = [(G.mk_spec(G.NAMES0, [k], [R]), p) for k in G.all_option_kinds()[::3]]
         p = dict(dom_n=1, arg_dom_n=1, multi_len=1, arg_multi_len=1)
         a += [(G.mk_spec(G.NAMES0, [k1, k2], [R]), p) for k1 in SHORTED for k2 in SHORTED]
-        a += [(G.mk_spec(G.NAMES2, [G.opt_kind("opt")], _akinds(sh, ["string"] * len(sh))), dict(p, arg_dom_n=2, arg_multi_len=2))
+        a += [(G.mk_spec(G.NAMES2, [G.opt_kind("opt")], _akinds(sh, ["string"] * len(sh))), dict(p, arg_dom_n=2, arg_multi_len=2, arg_extra=["add"]))
               for sh in G.arg_shapes(1)]
         return [("smoke", a)]
 
@@ -92,7 +92,10 @@ def parts(tier, seed=0):
             aks = _akinds(shape, tv)
             plain = all(t == "string" for t in tv)
             for nm in (G.NAMES0, G.NAMES1, G.NAMES2):
-                c.append((G.mk_spec(nm, [], aks), dict(dom_n=1, arg_dom_n=2 if q else 3, multi_len=1, arg_multi_len=2)))
+                # for all-string shapes the argument domain also holds a word that IS a command name / alias of the format
+                # (legal in front of `--` only when that name is spelled, behind `--` always)
+                ex = ([] if not plain or not nm else ["add"] if nm is G.NAMES2 else ["sv"])
+                c.append((G.mk_spec(nm, [], aks), dict(dom_n=1, arg_dom_n=2 if q else 3, multi_len=1, arg_multi_len=2, arg_extra=ex)))
                 if plain or not q:
                     c.append((G.mk_spec(nm, [G.opt_kind("flag"), G.opt_kind("opt")], aks),
                               dict(dom_n=1, arg_dom_n=1 if q else 2, multi_len=1, arg_multi_len=2)))
